@@ -64,7 +64,8 @@ def run(ck):
         key = (name, rules[:80])
         if fid is None and key in reported:
             continue
-        reported.add(key)
+        if fid is None:      # a listed finding never hides a later unlisted violation of the same class
+            reported.add(key)
         ck.violation({"kind": "invalid-spirv", "finding": fid, "source_and_options": t, "violated_rules": r[:3000],
                       "wgsl": unq(s[1:-1])[:6000],
                       "how": "the SPIR-V binary returned by the back end violates a structural rule of the specification"},
